@@ -533,7 +533,8 @@ def load_findings():
 
 
 def finding_matches(f, prop, engine, oracle, sig):
-    return (f['kind'] == 'finding' and f.get('property') == prop and f.get('engine') == engine and
+    return (f['kind'] == 'finding' and f.get('property') == prop and
+            f.get('engine') == ENGINES[engine].get('base', engine) and
             f.get('oracle') == oracle and f.get('sig', '') == sig)
 
 
@@ -627,9 +628,12 @@ def check(prop, tier):
     printed_known = set()
     for engine in engines:
         exe = build_engine(engine)
+        base_engine = ENGINES[engine].get('base', engine)   # build variants share findings and run tables with their base
         # 1. replay stored witnesses of known findings
         for f in findings:
-            if f['kind'] != 'finding' or f.get('property') != prop or f.get('engine') != engine:
+            if f['kind'] != 'finding' or f.get('property') != prop or f.get('engine') != base_engine:
+                continue
+            if engine != base_engine and (f['oracle'], f.get('sig', '')) in printed_known:
                 continue
             wpath = os.path.join(VERIF, f['witness'])
             o, _ = replay_file(wpath, explain=False)
@@ -639,7 +643,11 @@ def check(prop, tier):
             else:
                 log('note: known finding no longer reproduces: %s (%s)' % (f['desc'], o and o['oracle']))
         table = RUNS_C14 if prop == 'C14' else RUNS
-        count = int(table[tier][engine] * float(os.environ.get('VERIF_SCALE', '1')))
+        if engine in table[tier]:
+            count = table[tier][engine]
+        else:
+            count = max(200, int(table[tier][base_engine] * ENGINES[engine].get('scale', 0.25)))
+        count = int(count * float(os.environ.get('VERIF_SCALE', '1')))
         viol, summ, allh = run_batch(exe, prop, first, count, '%s-%s' % (prop, engine))
         d, nt = distinct_counts(allh)
         total_runs += summ['runs']
